@@ -333,12 +333,14 @@ pub fn c06_sign(c: &mut Ctx, a: W, s: W) {
     if valid_ref(s.0, s.1) && s.0 != 0.0 {
         let ts = t(s);
         let sneg = dy(s).sign() < 0;
-        match guard(|| w(ta.copysign(&ts))) {
-            Err(m) => c.viol("copysign", "panic", &ins, &[], m),
-            Ok(r) => {
-                let want = if sneg { va.abs().neg() } else { va.abs() };
-                if !finite(r) || !dy(r).eq(&want) {
-                    c.viol("copysign", "wrong", &ins, &outs(r), "copysign(x, s) must be |x| with the sign of s".into());
+        let want = if sneg { va.abs().neg() } else { va.abs() };
+        for (via, res) in [("inherent", guard(|| w(ta.copysign(&ts)))), ("Float", guard(|| w(<TwoFloat as num_traits::Float>::copysign(ta, ts))))] {
+            match res {
+                Err(m) => c.viol("copysign", "panic", &ins, &[], m),
+                Ok(r) => {
+                    if !finite(r) || !dy(r).eq(&want) {
+                        c.viol("copysign", "wrong", &ins, &outs(r), format!("{via}: copysign(x, s) must be |x| with the sign of s"));
+                    }
                 }
             }
         }
